@@ -62,6 +62,12 @@ def generate(tier, seed, work, stats):
         for _ in range(per):
             cases.append(dict(kind="cfg", prods=c["prods"], vpool="upper", tpool="ab", operand=ops[k % len(ops)], L=3, family="pairs"))
             k += 1
+    # integer terminals: the variables of the result are numbered, so the result mixes Variable(n) and Terminal(n)
+    int_ops = [dict(o, ypool="int") for o in ops if o["rkind"] != "regex"]
+    for i, c in enumerate(gcases):
+        if i % 3 == 0 and int_ops:
+            cases.append(dict(kind="cfg", prods=c["prods"], vpool="upper", tpool="int", operand=int_ops[(k + i) % len(int_ops)], L=3,
+                              family="pairs-integer-terminals"))
     for c in pcases:
         for _ in range(per):
             cases.append(dict(kind="pda", hist=c["hist"], spool=c["spool"], kpool=c["kpool"], operand=ops[k % len(ops)],
@@ -140,7 +146,7 @@ def make_operand(o):
         if r2[0] != "ok":
             return None, None
         return r[1], fa.project(r2[1])
-    ccalls, _ = fa.concrete(o["calls"], "int", "ab")
+    ccalls, _ = fa.concrete(o["calls"], "int", o.get("ypool", "ab"))
     a, _ = fa.build(o["rkind"], ccalls)
     return a, fa.project(a)
 
@@ -171,12 +177,26 @@ def replay(case):
         return []
     evs = []
     if case["kind"] == "cfg":
+        from harness import fa
         g, start, tagged = cfgh.make(case["prods"], case["vpool"], case["tpool"])
         G = cfgh.project(g)
+        tm = cfgh.TERM_POOLS[case["tpool"]]
+        words = pdah.words_upto([tm["a"], tm["b"]], Lw)
+        tw = [[fa.tag(x) for x in w] for w in words]
         r = guard.call(g.intersection, obj, timeout=5.0)
         ev = {"op": "cfg_intersection", "G": G, "A": A, "words": tw, "L": Lw, "rkind": case["operand"]["rkind"]}
         if r[0] == "ok":
             ev["R"] = cfgh.project(r[1])
+            # the returned grammar is used: its own contains() must give the intersection as well
+            racc = []
+            for w, t in zip(words, tw):
+                rc = guard.call(r[1].contains, list(w), timeout=3.0)
+                if rc[0] != "ok":
+                    ev["rexc"] = rc[1] if rc[0] == "exc" else "Timeout"
+                    break
+                if rc[1]:
+                    racc.append(t)
+            ev["racc"] = racc
         else:
             ev["exc"] = r[1] if r[0] == "exc" else "Timeout"
             ev["msg"] = r[2] if r[0] == "exc" else ""
